@@ -67,7 +67,7 @@ Theorem C12_visit_cases :
     | inl (FPrecUnknown n) => exists line : list precdef, In line (d_precs (a_decl a)) /\ In n (map pd_name line)
     | inl (FUndefined n) => exists r : ruledef, In r (a_rules a) /\ In (RSym n) (r_rhs r)
     | inr v =>
-        (forall (r : ruledef) (n : name), In r (a_rules a) -> In (RSym n) (r_rhs r) -> tab_has (vs_tab v) n = true) /\
+        (forall (r : ruledef) (n : name), In r (a_rules a) -> In (RSym n) (r_rhs r) -> tab_usable (vs_tab v) n = true) /\
         map (fun x : vrule => (v_lhs x, v_rhs x)) (vs_rules v) = map (fun r : ruledef => (r_lhs r, rsyms (r_rhs r))) (a_rules a)
     | inl _ => False
     end.
